@@ -2,10 +2,12 @@
   C20 — File streams round-trip data and refuse use when closed.
 
   Property theorems only; helper lemmas: CelloProofs/Lemmas/File.lean (reference stdio, chunked reads/writes) and
-  CelloProofs/Lemmas/FileTrack.lean (the call-log automaton over every wrapper).
+  CelloProofs/Lemmas/FileTrack.lean (the call-log automaton over every wrapper), CelloProofs/Lemmas/FileWith.lean (the
+  clauses of the `with` loop, its protocol automaton, a block that writes under the reference stdio).
   Model: Cello/File.lean — `step` (the File_* wrappers of src/File.c over an abstract `Stdio σ`), `Multi` (several objects
   over one library), `refIO` (reference stdio: byte files, positions, end-of-file flags), `track` (what a well-bracketed
-  log of stdio calls is).
+  log of stdio calls is), `execStmt` (programs with `with` blocks: the for loop of `with_in` clause by clause, source
+  expressions with side effects, the four ways out of a body), `wtrack` (what a well-formed run of with blocks is).
   Source-derived facts: CelloGen/File.lean (guard table, File_Close facts, class instances, `with_in`).
 
   Reading guide.  A File object is `Option Handle` (`none` = `f->file` is NULL).  Every wrapper returns the stdio calls
@@ -16,6 +18,7 @@
   or deleted, nothing is closed twice, no stale or NULL handle ever reaches stdio.
 -/
 import CelloProofs.Lemmas.FileTrack
+import CelloProofs.Lemmas.FileWith
 import CelloGen.File
 
 namespace Cello.File
@@ -33,7 +36,8 @@ theorem C20_guard_table :
 
 /-- the remaining shape facts: File_Close is guarded and always drops the handle (fix b3448e7); File_Open closes a held
     handle first, calls only fopen and throws on NULL; File_Del closes a held handle and calls no stdio itself; File_New
-    opens only when given arguments; the error translations; which function is sclose / stop / destruct; `with`. -/
+    opens only when given arguments; the error translations; which function is sclose / stop / destruct.
+    (The `with` macro: C20_with_macro_clauses.) -/
 theorem C20_source_shape :
     CelloGen.File.closeGuarded = true ∧ CelloGen.File.closeDropsAlways = true ∧
     CelloGen.File.openClosesFirst = true ∧ CelloGen.File.openThrowsOnNull = true ∧
@@ -46,11 +50,24 @@ theorem C20_source_shape :
     CelloGen.File.instNew = ["File_New", "File_Del"] ∧
     CelloGen.File.instStart = ["NULL", "File_Close", "NULL"] ∧
     CelloGen.File.instStream = ["File_Open", "File_Close", "File_Seek", "File_Tell", "File_Flush", "File_EOF", "File_Read", "File_Write"] ∧
-    CelloGen.File.instFormat = ["File_Format_To", "File_Format_From"] ∧
+    CelloGen.File.instFormat = ["File_Format_To", "File_Format_From"] := by
+  decide
+
+/-- the `with` macro, clause by clause, is the for loop the model executes (`execStmt`): the init clause hands the macro
+    argument `S` to start_in and binds the result to `X`; the condition is `X isnt NULL`; the step clause hands the loop
+    variable `X` — not `S` again — to stop_in; start_in returns its argument, stop_in calls the type's `stop` and returns
+    NULL (so the body runs once) -/
+theorem C20_with_macro_clauses :
     CelloGen.File.withMacro = "for(var X = start_in(S); X isnt NULL; X = stop_in(X))" ∧
+    CelloGen.File.withInitArg = "S" ∧ CelloGen.File.withCondNotNull = true ∧ CelloGen.File.withStepArg = "X" ∧
+    CelloGen.File.withStopsBound = true ∧
     CelloGen.File.startIn = "struct Start* s = instance(self, Start); if (s and s->start) { s->start(self); } return self;" ∧
     CelloGen.File.stopIn = "struct Start* s = instance(self, Start); if (s and s->stop) { s->stop(self); } return NULL;" := by
   decide
+
+/-- the macro configuration the driver runs the model with (read from the header) is the one the theorems are about -/
+theorem C20_with_current_cfg :
+    (⟨if CelloGen.File.withStopsBound then .bound else .source⟩ : WithCfg) = WithCfg.fixed := by decide
 
 /-- the configuration the driver runs the model with (read from the source) is the repaired one the theorems are about -/
 theorem C20_current_cfg : (⟨CelloGen.File.closeGuarded, CelloGen.File.closeDropsAlways⟩ : Cfg) = Cfg.fixed := rfl
@@ -144,6 +161,195 @@ theorem C20_close_once_system {σ : Type} (io : Stdio σ) (s : Multi σ) (steps 
     ∃ suf, (s.run io Cfg.fixed steps).log = s.log ++ suf ∧
       track (s.held o) (proj o suf) = some ((s.run io Cfg.fixed steps).held o) :=
   Multi.run_track io s steps o
+
+/-! ## the `with` construct: `for(var X = start_in(S); X isnt NULL; X = stop_in(X))`
+
+  Programs are lists of `Stmt`: operations on named objects and with blocks whose source expression is a variable or
+  a constructor call (`new(File, …)` in the header: every evaluation constructs and opens another File), with any body
+  (nested blocks included) and any of the four ways out (fall off the end, continue, break, exception). -/
+
+/-- **C20 (close-once) for programs with `with` blocks** (extends C20_close_once_system).  For every stdio
+    implementation, every program, every start state and every object: the stdio calls made on behalf of that object
+    continue its log in a well-bracketed way and end with exactly what the object holds.  (This holds for either
+    variant of the step clause: each single object is always used correctly.  What the variant `stop_in(S)` breaks is
+    WHICH object is stopped: the next theorems.) -/
+theorem C20_with_close_once_system {σ : Type} (io : Stdio σ) (w : WithCfg) (s : WSys σ) (p : List Stmt) (o : Nat) :
+    ∃ suf, (execList io Cfg.fixed w p s).m.log = s.m.log ++ suf ∧
+      track (s.m.held o) (proj o suf) = some ((execList io Cfg.fixed w p s).m.held o) :=
+  execList_tracks io w p s o
+
+/-- **One block, spelled out.**  Under the macro as it is, for every source expression, every body and every way out:
+    the source expression is evaluated by the init clause and nowhere else; if its constructor throws nothing else
+    happens; otherwise the body runs with the loop variable bound to the value `x` of that one evaluation, and then —
+    exactly when the body fell off its end or executed `continue` — File_Close is applied to that same `x`. -/
+theorem C20_with_statement_trace {σ : Type} (io : Stdio σ) (cfg : Cfg) (src : Src) (body : List Stmt) (leave : Leave)
+    (s : WSys σ) :
+    let i := initClause io cfg s.m src
+    execStmt io cfg WithCfg.fixed (.withIn src body leave) s =
+      match i.x with
+      | none => ⟨i.m, s.ev ++ [.eval src none]⟩
+      | some x =>
+        let b := execList io cfg WithCfg.fixed body ⟨i.m, s.ev ++ [.eval src (some x), .start x]⟩
+        if leave.runsStep then ⟨b.m.step io cfg x (.op .withExit), b.ev ++ [.stop x]⟩
+        else ⟨b.m, b.ev ++ [.left leave]⟩ := by
+  intro i
+  have hie := initClause_evs io cfg s.m src
+  have hix := initClause_x io cfg s.m src
+  cases hx : i.x with
+  | none =>
+    have hx' : (initClause io cfg s.m src).x = none := hx
+    rw [hx'] at hix; rw [← hix] at hie
+    simp only [] at hie ⊢
+    rw [execStmt_withIn_none io cfg _ src body leave s hx', hie]
+  | some x =>
+    have hx' : (initClause io cfg s.m src).x = some x := hx
+    rw [hx'] at hix; rw [← hix] at hie
+    simp only [] at hie ⊢
+    cases hl : leave.runsStep with
+    | true => rw [execStmt_withIn_fixed io cfg src body leave s x hx' hl, hie]; simp only [if_true]; rfl
+    | false => rw [execStmt_withIn_left io cfg _ src body leave s x hx' hl, hie]; simp only [Bool.false_eq_true, if_false]; rfl
+
+/-- **The protocol of with blocks, for every program.**  Under the macro as it is, the events of any program are
+    accepted by `wtrack`: every evaluation of a source expression that yields an object is followed at once by start_in
+    of exactly that object (no evaluation belongs to a step clause), every stop_in is applied to the loop variable of the
+    innermost block being executed — the object that block's one evaluation returned — and ends that block, break and
+    exceptions end it without stop_in, and at the end no block is left open. -/
+theorem C20_with_protocol {σ : Type} (io : Stdio σ) (cfg : Cfg) (s : WSys σ) (p : List Stmt) :
+    ∃ evs, (execList io cfg WithCfg.fixed p s).ev = s.ev ++ evs ∧ wtrack ([], none) evs = some ([], none) :=
+  execList_protocol io cfg p s []
+
+/-- in numbers: over any program the source expressions were evaluated exactly once per block — the evaluations are the
+    blocks entered plus the constructors that threw — and every block entered was left exactly once -/
+theorem C20_with_evaluated_once {σ : Type} (io : Stdio σ) (cfg : Cfg) (s : WSys σ) (p : List Stmt) :
+    ∃ evs, (execList io cfg WithCfg.fixed p s).ev = s.ev ++ evs ∧
+      (evs.filter isEval).length = (evs.filter isStart).length + (evs.filter isEvalFail).length ∧
+      (evs.filter isStart).length = (evs.filter isExit).length := by
+  obtain ⟨evs, h1, h2⟩ := execList_protocol io cfg p s []
+  have := wtrack_count ([], none) ([], none) evs h2
+  exact ⟨evs, h1, by simpa using this.1, by simpa using this.2⟩
+
+/-- **Leaving a with block closes the stream of the object it was entered with.**  For every stdio (fclose may fail),
+    every source expression, every body — which may close, reopen or even delete that object — and both ways of
+    reaching the step clause: afterwards the object the init clause bound holds no handle. -/
+theorem C20_with_closes_bound {σ : Type} (io : Stdio σ) (src : Src) (body : List Stmt) (leave : Leave) (s : WSys σ)
+    (x : Nat) (hx : (initClause io Cfg.fixed s.m src).x = some x) (hl : leave.runsStep = true) :
+    (execStmt io Cfg.fixed WithCfg.fixed (.withIn src body leave) s).m.held x = none := by
+  rw [execStmt_withIn_fixed io Cfg.fixed src body leave s x hx hl]
+  exact held_step_withExit io _ x
+
+/-- **The File constructed in the header: every fopen matched by exactly one fclose of that handle, for every body.**
+    `with (f in new(File …)) { body }` under a name that is free, any stdio, any arguments (none, or a file and a mode;
+    fopen may fail), any body, leaving through the step clause: the calls made on behalf of the new File form a
+    well-bracketed log that ends with nothing held — each successful fopen (the constructor's, and any reopen in the
+    body) is followed by exactly one fclose of that very handle — so the counts balance. -/
+theorem C20_with_inline_balanced {σ : Type} (io : Stdio σ) (s : WSys σ) (name : Nat) (args : Option (Nat × Mode))
+    (body : List Stmt) (leave : Leave) (hl : leave.runsStep = true) (hfree : lookup name s.m.objs = none) :
+    let e := execStmt io Cfg.fixed WithCfg.fixed (.withIn (.newFile name args) body leave) s
+    ∃ suf, e.m.log = s.m.log ++ suf ∧ track none (proj name suf) = some none ∧
+      ((proj name suf).filter isOpenOk).length = ((proj name suf).filter isClose).length := by
+  intro e
+  obtain ⟨suf, h1, h2⟩ := execStmt_tracks io WithCfg.fixed (.withIn (.newFile name args) body leave) s name
+  have hfn : freshName s.m.objs name = name := freshName_of_free _ _ hfree
+  have hend : e.m.held name = none := by
+    cases hx : (initClause io Cfg.fixed s.m (.newFile name args)).x with
+    | none =>
+      show (execStmt io Cfg.fixed WithCfg.fixed (.withIn (.newFile name args) body leave) s).m.held name = none
+      rw [execStmt_withIn_none io Cfg.fixed _ _ body leave s hx]
+      have hx' := hx
+      rw [initClause_x] at hx'
+      have := evalSrc_newFile_held io s.m name args hx'
+      rw [hfn] at this
+      rw [initClause_m, hx']
+      exact this
+    | some x =>
+      have hx' := hx
+      rw [initClause_x] at hx'
+      have hxn : x = name := by rw [evalSrc_newFile_x io Cfg.fixed s.m name args x hx', hfn]
+      subst hxn
+      exact C20_with_closes_bound io _ body leave s x hx hl
+  rw [held_of_lookup_none s.m name hfree] at h2
+  have h2' : track none (proj name suf) = some none := by rw [h2]; exact congrArg some hend
+  refine ⟨suf, h1, h2', ?_⟩
+  simpa using track_count none none _ h2'
+
+/-- **What the body wrote is in the file afterwards** (the documented idiom under the reference stdio).  For every
+    library state, every regular file `k`, mode "w"/"w+", every list of chunks (empty ones and zero bytes included), a
+    name that is free, leaving by the end of the body or by `continue`:
+    `with (f in new(File, $S(k), $S("w"))) { swrite(f, chunk)… }` makes exactly one fopen, one fwrite per chunk and one
+    fclose — of the handle that fopen returned —, the source expression is evaluated once, the file then holds exactly
+    the chunks, the File holds nothing and the handle is no longer open. -/
+theorem C20_with_inline_roundtrip (l : Ref) (objs : List (Nat × Option Handle)) (log : List (Nat × Call)) (ev : List WEv)
+    (k : Nat) (hk : Regular k) (name : Nat) (hfree : lookup name objs = none) (mw : Mode) (hmw : mw = .w ∨ mw = .wp)
+    (cs : List (List Byte)) (leave : Leave) (hl : leave.runsStep = true) :
+    let src := Src.newFile name (some (k, mw))
+    let e := execStmt refIO Cfg.fixed WithCfg.fixed (.withIn src (writeStmts name cs) leave) ⟨⟨l, objs, log⟩, ev⟩
+    e.m.lib.content k = cs.flatten ∧ e.m.held name = none ∧ lookup l.next e.m.lib.streams = none ∧
+      e.m.log = log ++ ((Call.fopen k mw (some l.next) :: (cs.map (fun _ => Call.on .fwrite l.next) ++ [Call.on .fclose l.next])).map
+        (fun c => (name, c))) ∧
+      e.ev = ev ++ [.eval src (some name), .start name, .stop name] :=
+  with_inline_write l objs log ev k hk name hfree mw hmw cs leave hl
+
+/-- the documented idiom on a concrete history, macro as it is: `with (f in new(File, $S("f0"), $S("w"))) { swrite "hi" }`
+    then a second block that appends "!" and is left by break (the stream stays open until sclose) -/
+example :
+    let s0 : WSys Ref := ⟨⟨Ref.init, [], []⟩, []⟩
+    let e := execList refIO Cfg.fixed WithCfg.fixed
+      [.withIn (.newFile 4 (some (0, .w))) [.op 4 (.op (.write [104, 105]))] .fall,
+       .withIn (.newFile 5 (some (0, .a))) [.op 5 (.op (.write [33]))] .brk,
+       .op 5 (.op .close)] s0
+    e.m.log = [(4, .fopen 0 .w (some 1)), (4, .on .fwrite 1), (4, .on .fclose 1),
+               (5, .fopen 0 .a (some 2)), (5, .on .fwrite 2), (5, .on .fclose 2)] ∧
+    e.m.lib.files = [(0, [104, 105, 33])] ∧ e.m.held 4 = none ∧ e.m.held 5 = none ∧
+    e.ev = [.eval (.newFile 4 (some (0, .w))) (some 4), .start 4, .stop 4,
+            .eval (.newFile 5 (some (0, .a))) (some 5), .start 5, .left .brk] ∧
+    wtrack ([], none) e.ev = some ([], none) := by
+  decide
+
+/-- the hypotheses of the block theorems are met by a concrete state -/
+example : lookup 4 ([(0, none), (1, some 7)] : List (Nat × Option Handle)) = none ∧ Leave.fall.runsStep = true ∧
+    Leave.cont.runsStep = true ∧
+    (initClause refIO Cfg.fixed ⟨Ref.init, [], []⟩ (.newFile 4 (some (0, .w)))).x = some 4 := by decide
+
+/-- **The variant `X = stop_in(S)` is refuted.**  If the step clause hands the macro argument to stop_in, the source
+    expression is evaluated a second time when the block is left.  Witness under the reference stdio, the documented
+    idiom `with (f in new(File, $S("f0"), $S("w"))) { swrite(f, "hi") }`: a second File is constructed — its fopen "w"
+    truncates the file — and it is that second File which is closed; the File the body wrote to is never closed
+    (it still holds handle 1), two successful fopens face one fclose, the protocol automaton rejects the run (an
+    evaluation inside a step clause), and the file is empty instead of holding "hi".
+    Second witness, `with (f in new(File)) { sopen(f, "f0", "w"); swrite(f, "hi"); continue; }`: the step clause
+    constructs a fresh, closed File and stops that one — IOError — while the stream opened in the body stays open. -/
+theorem C20_with_stop_on_expression_refuted :
+    let s0 : WSys Ref := ⟨⟨Ref.init, [], []⟩, []⟩
+    let src := Src.newFile 4 (some (0, .w))
+    let e := execList refIO Cfg.fixed WithCfg.reeval [.withIn src [.op 4 (.op (.write [104, 105]))] .fall] s0
+    e.ev = [.eval src (some 4), .start 4, .eval src (some 5), .stop 5] ∧
+    wtrack ([], none) e.ev = none ∧
+    e.m.log = [(4, .fopen 0 .w (some 1)), (4, .on .fwrite 1), (5, .fopen 0 .w (some 2)), (5, .on .fclose 2)] ∧
+    e.m.held 4 = some 1 ∧ e.m.held 5 = none ∧
+    ((e.m.log.map (·.2)).filter isOpenOk).length = 2 ∧ ((e.m.log.map (·.2)).filter isClose).length = 1 ∧
+    e.m.lib.files = [(0, [])] ∧
+    (let e2 := execList refIO Cfg.fixed WithCfg.reeval
+        [.withIn (.newFile 4 none) [.op 4 (.op (.open 0 .w)), .op 4 (.op (.write [104, 105]))] .cont] s0
+     (stepClause refIO Cfg.fixed WithCfg.reeval
+        (execList refIO Cfg.fixed WithCfg.reeval [.op 4 (.op (.open 0 .w))] ⟨(initClause refIO Cfg.fixed s0.m (.newFile 4 none)).m, []⟩).m
+        (.newFile 4 none) 4).out = .raised .IOError ∧
+     e2.m.held 4 = some 1 ∧ wtrack ([], none) e2.ev = none) := by
+  decide
+
+/-- the macro as it is, on the same two programs: one evaluation, the File the body used is the one closed, one fopen
+    and one fclose of that handle, the file holds "hi" -/
+theorem C20_with_stop_on_bound_repaired :
+    let s0 : WSys Ref := ⟨⟨Ref.init, [], []⟩, []⟩
+    let src := Src.newFile 4 (some (0, .w))
+    let e := execList refIO Cfg.fixed WithCfg.fixed [.withIn src [.op 4 (.op (.write [104, 105]))] .fall] s0
+    let e2 := execList refIO Cfg.fixed WithCfg.fixed
+        [.withIn (.newFile 4 none) [.op 4 (.op (.open 0 .w)), .op 4 (.op (.write [104, 105]))] .cont] s0
+    e.ev = [.eval src (some 4), .start 4, .stop 4] ∧ wtrack ([], none) e.ev = some ([], none) ∧
+    e.m.log = [(4, .fopen 0 .w (some 1)), (4, .on .fwrite 1), (4, .on .fclose 1)] ∧ e.m.held 4 = none ∧
+    e.m.lib.files = [(0, [104, 105])] ∧
+    e2.m.log = [(4, .fopen 0 .w (some 1)), (4, .on .fwrite 1), (4, .on .fclose 1)] ∧ e2.m.held 4 = none ∧
+    e2.m.lib.files = [(0, [104, 105])] ∧ wtrack ([], none) e2.ev = some ([], none) := by
+  decide
 
 /-! ## round trip under the reference stdio -/
 
